@@ -20,10 +20,13 @@ import (
 	"fmt"
 	"time"
 
+	"github.com/olric-data/olric/internal/cluster/partitions"
+	"github.com/olric-data/olric/internal/discovery"
 	"github.com/olric-data/olric/internal/protocol"
 	"github.com/olric-data/olric/internal/resp"
 	"github.com/olric-data/olric/internal/util"
 	"github.com/olric-data/olric/pkg/storage"
+	"github.com/redis/go-redis/v9"
 )
 
 func (dm *DMap) loadCurrentAtomicInt(e *env) (int, int64, error) {
@@ -45,7 +48,34 @@ func (dm *DMap) loadCurrentAtomicInt(e *env) (int, int64, error) {
 	return int(nr), entry.TTL(), nil
 }
 
+// atomicOwner returns the partition owner of the key if it is not this member. The
+// read-modify-write sequence of the atomic operations is serialized by the locker of one
+// member only. It has to run on the partition owner, whatever member receives the request.
+func (dm *DMap) atomicOwner(key string) (discovery.Member, bool) {
+	hkey := partitions.HKey(dm.name, key)
+	member := dm.s.primary.PartitionByHKey(hkey).Owner()
+	return member, !member.CompareByName(dm.s.rt.This())
+}
+
 func (dm *DMap) atomicIncrDecr(cmd string, e *env, delta int) (int, error) {
+	if member, ok := dm.atomicOwner(e.key); ok {
+		var rcmd *redis.IntCmd
+		switch cmd {
+		case protocol.DMap.Incr:
+			rcmd = protocol.NewIncr(e.dmap, e.key, delta).Command(dm.s.ctx)
+		case protocol.DMap.Decr:
+			rcmd = protocol.NewDecr(e.dmap, e.key, delta).Command(dm.s.ctx)
+		default:
+			return 0, fmt.Errorf("invalid operation")
+		}
+		rc := dm.s.client.Get(member.String())
+		if err := rc.Process(e.ctx, rcmd); err != nil {
+			return 0, protocol.ConvertError(err)
+		}
+		res, err := rcmd.Result()
+		return int(res), protocol.ConvertError(err)
+	}
+
 	atomicKey := e.dmap + e.key
 	dm.s.locker.Lock(atomicKey)
 	defer func() {
@@ -110,6 +140,26 @@ func (dm *DMap) Decr(ctx context.Context, key string, delta int) (int, error) {
 }
 
 func (dm *DMap) getPut(e *env) (storage.Entry, error) {
+	if member, ok := dm.atomicOwner(e.key); ok {
+		rcmd := protocol.NewGetPut(e.dmap, e.key, e.value).SetRaw().Command(dm.s.ctx)
+		rc := dm.s.client.Get(member.String())
+		err := rc.Process(e.ctx, rcmd)
+		if errors.Is(err, redis.Nil) {
+			// There was no previous value.
+			return nil, nil
+		}
+		if err != nil {
+			return nil, protocol.ConvertError(err)
+		}
+		raw, err := rcmd.Bytes()
+		if err != nil {
+			return nil, protocol.ConvertError(err)
+		}
+		entry := dm.engine.NewEntry()
+		entry.Decode(raw)
+		return entry, nil
+	}
+
 	atomicKey := e.dmap + e.key
 	dm.s.locker.Lock(atomicKey)
 	defer func() {
@@ -169,6 +219,16 @@ func (dm *DMap) GetPut(ctx context.Context, key string, value interface{}) (stor
 }
 
 func (dm *DMap) atomicIncrByFloat(e *env, delta float64) (float64, error) {
+	if member, ok := dm.atomicOwner(e.key); ok {
+		rcmd := protocol.NewIncrByFloat(e.dmap, e.key, delta).Command(dm.s.ctx)
+		rc := dm.s.client.Get(member.String())
+		if err := rc.Process(e.ctx, rcmd); err != nil {
+			return 0, protocol.ConvertError(err)
+		}
+		res, err := rcmd.Result()
+		return res, protocol.ConvertError(err)
+	}
+
 	atomicKey := e.dmap + e.key
 	dm.s.locker.Lock(atomicKey)
 	defer func() {
